@@ -158,3 +158,32 @@ async def save_workflow(workflow: Workflow):
 def raw_db():
     """The raw sqlite3 connection of the (single) shim connection opened by the current context."""
     return sqlite_shim.connections[-1].raw
+
+
+MERGES = {
+    "pair": lambda d: {k: d[k] for k in sorted(d)},
+    "sum": lambda d: sum(v for v in d.values() if isinstance(v, (int, float))),
+    "list": lambda d: [d[k] for k in sorted(d)],
+}
+
+
+class PyMerge(Transformer):
+    """Many-to-one transformer: output ``x`` = named function of the dict of input values."""
+
+    def __init__(self, name: str, workflow: Workflow, func: str = "pair"):
+        super().__init__(name, workflow)
+        self.func = func
+
+    @classmethod
+    async def _load(cls, row, loading_context):
+        return cls(name=row["name"], workflow=await loading_context.load_workflow(row["workflow"]),
+                   func=row["params"]["func"])
+
+    async def _save_additional_params(self, database):
+        return dict(await super()._save_additional_params(database)) | {"func": self.func}
+
+    async def transform(self, inputs):
+        from streamflow.core.utils import get_tag
+
+        v = MERGES[self.func]({k: value_of(t) for k, t in inputs.items()})
+        return {next(iter(self.output_ports)): tok_from_value(v, tag=get_tag(inputs.values()))}
